@@ -21,22 +21,24 @@ Definition binop_eqb (a b : binop) : bool :=
   | _, _ => false
   end.
 
-Fixpoint expr_eqb (a b : expr) : bool :=
-  let fix go (l m : list expr) : bool :=
+Definition list_eqb {A} (e : A -> A -> bool) : list A -> list A -> bool :=
+  fix go (l m : list A) : bool :=
     match l, m with
     | [], [] => true
-    | x :: r, y :: t => expr_eqb x y && go r t
+    | x :: r, y :: t => e x y && go r t
     | _, _ => false
-    end in
+    end.
+
+Fixpoint expr_eqb (a b : expr) : bool :=
   match a, b with
   | Name x, Name y => String.eqb x y
   | Attribute v x, Attribute w y => expr_eqb v w && String.eqb x y
   | Constant c, Constant d => const_eqb c d
   | Subscript v s, Subscript w t => expr_eqb v w && expr_eqb s t
-  | Tuple l, Tuple m => go l m
-  | List_ l, List_ m => go l m
+  | Tuple l, Tuple m => list_eqb expr_eqb l m
+  | List_ l, List_ m => list_eqb expr_eqb l m
   | BinOp o l r, BinOp p m s => binop_eqb o p && expr_eqb l m && expr_eqb r s
-  | Other t l, Other s m => String.eqb t s && go l m
+  | Other t l, Other s m => String.eqb t s && list_eqb expr_eqb l m
   | _, _ => false
   end.
 
